@@ -8,8 +8,9 @@ S = "jellyfysh.setting"
 module_global(S, "dimension", "int", ["dimension == 3", "dimension == glob('jellyfysh.setting.hypercuboid_setting', 'dimension')"])
 module_global(S, "periodic_boundaries", "HypercuboidPeriodicBoundaries", [])
 cls("BasicEventHandler", _event_time="Time", _state="list[Node]")
-cls("FixedIntervalSamplingEventHandler", _event_time="Time", _sampling_interval="float", _state="list[Node]")
-cls("FinalTimeEndOfRunEventHandler", _event_time="Time", _state="list[Node]")
+cls("FixedIntervalSamplingEventHandler", _event_time="opt[Time]", _sampling_interval="float", _state="opt[list[Node]]",
+    _output_handler="any")
+cls("FinalTimeEndOfRunEventHandler", _event_time="opt[Time]", _state="opt[list[Node]]", _output_handler="any")
 CUB = "jellyfysh.setting.hypercuboid_setting"
 
 A = "jellyfysh.event_handler.abstracts.abstracts:BasicEventHandler."
@@ -52,3 +53,50 @@ contract("jellyfysh.event_handler.fixed_interval_sampling_event_handler:FixedInt
 contract("jellyfysh.event_handler.final_time_end_of_run_event_handler:FinalTimeEndOfRunEventHandler.send_event_time",
          "C17", model="R", returns="Time", ensures=["same(result, self._event_time)"], canary="result is None",
          native_search=False, note="the run ends at the stored end time (from_float(end_of_run_time), exact by C14)")
+
+# ---- C17: the constructors establish what send_event_time relies on
+cls("EventHandler", number_send_event_time_arguments="int", number_send_out_state_arguments="int")
+contract("jellyfysh.event_handler.event_handler:EventHandler.__init__", "C17", model="R", assume_only=True,
+         params={"kwargs": "any"}, modifies=["self.number_send_event_time_arguments", "self.number_send_out_state_arguments"],
+         allocates=False, note="interface: introspection of the two mediating methods (inspect.signature), nothing else")
+contract("jellyfysh.event_handler.fixed_interval_sampling_event_handler:FixedIntervalSamplingEventHandler.__init__",
+         "C17", model="R", params={"sampling_interval": "float", "output_handler": "any", "first_event_time_zero": "bool"},
+         requires=["not isinf(sampling_interval)"],
+         raises={"ConfigurationError": "not (sampling_interval > 0)"},
+         modifies=["self._sampling_interval", "self._event_time", "self._output_handler", "self._state",
+                   "self.number_send_event_time_arguments", "self.number_send_out_state_arguments"],
+         ensures=["self._sampling_interval == sampling_interval", "self._sampling_interval > 0",
+                  "is_int(self._event_time._quotient) and 0 <= self._event_time._remainder < 1",
+                  # the first candidate (one interval later) is the interval itself, or exactly zero if so requested
+                  "val(self._event_time) == ite(first_event_time_zero, -sampling_interval, 0)"],
+         canary="first_event_time_zero", native_search=False,
+         note="the stored time is normalised: send_event_time's precondition")
+contract("jellyfysh.event_handler.final_time_end_of_run_event_handler:FinalTimeEndOfRunEventHandler.__init__",
+         "C17", model="R", params={"end_of_run_time": "float", "output_handler": "any"},
+         requires=["not isinf(end_of_run_time)"],
+         raises={"ConfigurationError": "not (end_of_run_time >= 0)"},
+         modifies=["self._event_time", "self._output_handler", "self._state",
+                   "self.number_send_event_time_arguments", "self.number_send_out_state_arguments"],
+         ensures=["is_int(self._event_time._quotient) and 0 <= self._event_time._quotient and 0 <= self._event_time._remainder < 1",
+                  "val(self._event_time) == end_of_run_time"],
+         canary="end_of_run_time == 0", native_search=False,
+         note="the end time is a NORMALISED Time: the schedulers compare quotients first")
+
+# bit precise (model F): each step rounds ONCE, on the remainder only - the error of the k-th sample time does not grow with k
+contract("jellyfysh.event_handler.fixed_interval_sampling_event_handler:FixedIntervalSamplingEventHandler.send_event_time",
+         "C17", tag="F", model="F", returns="Time", lemmas_used=["divmod1"],
+         requires=["is_int(self._event_time._quotient) and 0 <= self._event_time._quotient <= 2**52 and "
+                   "0 <= self._event_time._remainder < 1", "0 < self._sampling_interval <= 2**40"],
+         modifies=["self._event_time"],
+         ensures=["is_int(result._quotient)", "0 <= result._remainder < 1",
+                  "result._remainder == old(rn_sub(rn_add(self._event_time._remainder, self._sampling_interval), "
+                  "floor(rn_add(self._event_time._remainder, self._sampling_interval))))",
+                  "result._quotient == old(rn_add(self._event_time._quotient, "
+                  "floor(rn_add(self._event_time._remainder, self._sampling_interval))))",
+                  "old(exact_add(self._event_time._quotient, floor(rn_add(self._event_time._remainder, self._sampling_interval))))",
+                  "old(exact_sub(rn_add(self._event_time._remainder, self._sampling_interval), "
+                  "floor(rn_add(self._event_time._remainder, self._sampling_interval))))"],
+         canary="result._remainder < 0.5", native_search=False,
+         trusted=["cpython_float_divmod (see C14)"],
+         note="new time = quotient + RN(remainder + interval) with both remaining operations exact: one rounding per "
+              "sample, of a number below 2^40+1, whatever the accumulated time")
